@@ -1340,6 +1340,139 @@ Proof.
   intros v V. now apply end_block_v_inv.
 Qed.
 
+(* ---------- zero-height export + import ---------- *)
+Lemma withdraw_all_inv : forall h ord v acc v' l,
+  VInv v -> withdraw_all h ord v acc = Ok (v', l) -> VInv v'.
+Proof.
+  intros h ord. induction ord as [|a r IH]; intros v acc v' l V H; cbn [withdraw_all] in H.
+  - inversion H; subst; assumption.
+  - destruct (kget a (v_dels v)); [|eapply IH; eauto].
+    apply bind_ok in H as ([v1 p1] & W & H). cbn [fst snd] in H.
+    eapply IH; [|exact H]. eapply wdr_inv; eauto.
+Qed.
+
+Lemma In_khas : forall {A} (m : list (Z * A)) e, In e m -> khas (fst e) m = true.
+Proof.
+  intros A m e. unfold khas. induction m as [|[k a] r IH]; intros IN; [destruct IN|]. cbn [kget].
+  destruct IN as [<-|IN]; cbn [fst]; [now rewrite Z.eqb_refl|].
+  destruct (fst e =? k); [reflexivity|]. now apply IH.
+Qed.
+
+Lemma khas_In : forall {A} (m : list (Z * A)) a, khas a m = true -> In a (map fst m).
+Proof.
+  intros A m a. unfold khas. induction m as [|[k x] r IH]; cbn [kget map fst]; [discriminate|].
+  destruct (Z.eqb_spec a k) as [->|N]; [left; reflexivity|]. intros H. right. now apply IH.
+Qed.
+
+Lemma filter_none : forall {A} (f : A -> bool) l, Forall (fun e => f e = false) l -> filter f l = [].
+Proof. intros A f l F. induction F as [|e r He F IH]; cbn [filter]; [reflexivity|]. now rewrite He. Qed.
+
+Lemma reset_v_start : forall v, (forall a, khas a (v_dels v) = khas a (v_start v)) -> v_start (reset_v v) = [].
+Proof.
+  intros v K. unfold reset_v. psimpl. apply filter_none.
+  apply Forall_forall. intros e IN. rewrite K, (In_khas _ _ IN). reflexivity.
+Qed.
+
+(* the loop invariant of "reinitialize all delegations" *)
+Record RI (v0 v : vstate) : Prop := {
+  R_f1 : F1 v;
+  R_stk : stk_same v0 v;
+  R_sub : forall a, khas a (v_start v) = true -> khas a (v_dels v) = true;
+  R_pots : v_cur v = 0 /\ v_out v = 0
+}.
+
+Lemma reinit_step : forall v0 v a v1 v2,
+  RI v0 v -> khas a (v_dels v) = true -> khas a (v_start v) = false ->
+  incr_period v = Ok v1 -> init_delegation 0 a v1 = Ok v2 ->
+  RI v0 v2 /\ (forall b, khas b (v_start v2) = if b =? a then true else khas b (v_start v)).
+Proof.
+  intros v0 v a v1 v2 [F (T0&S0&D0) SUB (C0&O0)] Kd Ks I1 I2.
+  pose proof (incr_period_F1 _ _ F I1) as F1'.
+  pose proof (incr_period_ratio _ _ I1) as (C1 & O1 & _).
+  pose proof (incr_period_spec _ _ I1) as ((T1&S1&D1&St1&Sl1&_) & _).
+  assert (N1 : kget a (v_start v1) = None) by (rewrite St1; now apply khas_false).
+  pose proof (init_delegation_F1 _ _ _ _ F1' N1 I2) as F2.
+  apply init_delegation_frame in I2 as ((T2&S2&D2) & _ & _ & _ & C2 & O2 & _ & _ & si & St2 & _).
+  assert (OUT : v_out v2 = 0).
+  { rewrite O2, O1. unfold out_after_period. rewrite C0, O0. destruct (v_tokens v =? 0); reflexivity. }
+  split.
+  - constructor.
+    + exact F2.
+    + unfold stk_same. repeat split; congruence.
+    + intros b. rewrite St2, St1, D2, D1, khas_kset. destruct (Z.eqb_spec b a) as [->|]; [intros _; exact Kd|apply SUB].
+    + split; [congruence|exact OUT].
+  - intros b. rewrite St2, St1. apply khas_kset.
+Qed.
+
+Lemma reinit_all_RI : forall l v0 v v',
+  RI v0 v -> reinit_all l v = Ok v' ->
+  RI v0 v' /\ (forall b, khas b (v_start v) = true -> khas b (v_start v') = true) /\
+  (forall a, In a l -> khas a (v_dels v) = true -> khas a (v_start v') = true).
+Proof.
+  induction l as [|a r IH]; intros v0 v v' R H; cbn [reinit_all] in H.
+  - inversion H; subst. split; [exact R|]. split; [auto|]. intros a [].
+  - destruct (khas a (v_dels v) && negb (khas a (v_start v))) eqn:C.
+    + apply andb_prop in C as (Kd & Ks). apply negb_true_iff in Ks.
+      apply bind_ok in H as (v1 & I1 & H). apply bind_ok in H as (v2 & I2 & H).
+      destruct (reinit_step _ _ _ _ _ R Kd Ks I1 I2) as (R2 & KS).
+      destruct (IH _ _ _ R2 H) as (R' & MONO & COV).
+      assert (D2 : v_dels v2 = v_dels v).
+      { destruct R as [_ (_&_&Da) _ _]. destruct R2 as [_ (_&_&Db) _ _]. congruence. }
+      split; [exact R'|]. split.
+      * intros b Hb. apply MONO. rewrite KS. destruct (b =? a); [reflexivity|exact Hb].
+      * intros b [->|IN] Hb.
+        -- apply MONO. rewrite KS, Z.eqb_refl. reflexivity.
+        -- apply COV; [exact IN|now rewrite D2].
+    + destruct (IH _ _ _ R H) as (R' & MONO & COV).
+      split; [exact R'|]. split; [exact MONO|].
+      intros b [->|IN] Hb; [|now apply COV].
+      rewrite Hb in C. cbn [andb] in C. apply negb_false_iff in C. now apply MONO.
+Qed.
+
+Lemma export_zero_v_inv : forall h ord v v' pays,
+  VInv v -> export_zero_v h ord v = Ok (v', pays) -> VInv v'.
+Proof.
+  unfold export_zero_v; intros h ord v v' pays V H.
+  apply bind_ok in H as ([v1 l1] & W & H). cbn [fst snd] in H.
+  apply bind_ok in H as (v2 & RA & H). inversion H; subst v2 pays; clear H.
+  pose proof (withdraw_all_inv _ _ _ _ _ _ V W) as [F SD SU NN K T PO].
+  pose proof (reset_v_start v1 K) as ST.
+  assert (R0 : RI (reset_v v1) (reset_v v1)).
+  { constructor.
+    - constructor.
+      + rewrite ST. exact I.
+      + intros p. rewrite ST. unfold reset_v, href. psimpl. cbn [kget cnt_start ksumf cnt_slash].
+        replace (1 - 1) with 0 by reflexivity. destruct (p =? 0); reflexivity.
+      + rewrite ST. constructor.
+      + unfold reset_v. psimpl. constructor.
+    - unfold stk_same. repeat split.
+    - intros a. rewrite ST. unfold khas. cbn. discriminate.
+    - unfold reset_v. psimpl. split; reflexivity. }
+  destruct (reinit_all_RI _ _ _ _ R0 RA) as ([F' (T'&S'&D') SUB (C'&O')] & _ & COV).
+  unfold reset_v in T', S', D'. psimpl in *.
+  constructor; rewrite ?D', ?S', ?T'; try assumption.
+  - intros a. destruct (khas a (v_dels v1)) eqn:Kd.
+    + symmetry. apply COV; [apply in_or_app; right; now apply khas_In|unfold reset_v; psimpl; exact Kd].
+    + destruct (khas a (v_start v')) eqn:Ks; [|reflexivity]. apply SUB in Ks. rewrite D' in Ks. congruence.
+  - lia.
+Qed.
+
+Lemma export_vals_inv : forall h ord l l' pays,
+  Forall VInv l -> export_vals h ord l = Ok (l', pays) -> Forall VInv l'.
+Proof.
+  intros h ord l. induction l as [|v r IH]; intros l' pays F H; cbn [export_vals] in H.
+  - inversion H; subst. constructor.
+  - inversion F; subst.
+    apply bind_ok in H as ([v' p1] & E & H). apply bind_ok in H as ([r' p2] & ER & H).
+    inversion H; subst; clear H. cbn [fst]. constructor; [eapply export_zero_v_inv; eauto|eapply IH; eauto].
+Qed.
+
+Lemma pay_all_frame : forall l s, s_vals (pay_all l s) = s_vals s /\ s_reds (pay_all l s) = s_reds s.
+Proof.
+  unfold pay_all. induction l as [|p r IH]; intros s; cbn [fold_left]; [auto|].
+  destruct (IH (pay (fst p) (snd p) s)) as (A & B). rewrite A, B. auto.
+Qed.
+
 Lemma exec_inv : forall s o s', SInv s -> exec s o = Ok s' -> SInv s'.
 Proof.
   intros s o s' I H. destruct o; cbn [exec] in *.
@@ -1423,6 +1556,15 @@ Proof.
     destruct (v_jailed vs); inversion H; subst.
     apply put_val_inv; [assumption|].
     eapply VInv_ext; [| | | | | | | | |eapply get_val_inv; eauto]; reflexivity.
+  - (* ExportImport *)
+    destruct zero.
+    + apply bind_ok in H as ([l' pays] & E & H). inversion H; subst; clear H. cbn [fst snd].
+      destruct I as (IA & IB). split; cbn [s_vals s_reds set_height set_allow set_reds set_ubds].
+      * rewrite (proj1 (pay_all_frame _ _)). cbn [s_vals set_vals]. eapply export_vals_inv; eauto.
+      * apply Forall_map. eapply Forall_impl; [|exact IB]. intros e He. exact He.
+    + inversion H; subst. now apply set_allow_inv.
+  - (* Reverted *)
+    discriminate.
 Qed.
 
 Lemma step_inv : forall s o, SInv s -> SInv (fst (step s o)).
@@ -2061,6 +2203,10 @@ Definition ex_ops : list op :=
    Jail 0; Block [prec * prec; prec * prec]; Transfer 0 0 3 (20 * prec);
    Block [prec * prec; prec * prec]; Withdraw 0 3; Unjail 0;
    Block [prec * prec; prec * prec];
+   ExportImport true [2; 100; 0; 1; 3; 101];
+   Block [prec * prec; prec * prec]; SlashVal 0 2 3 (prec / 20); Block [prec * prec; prec * prec];
+   Withdraw 0 1; Transfer 0 1 2 3;
+   Block [prec * prec; prec * prec]; ExportImport false [2; 100; 0; 1; 3; 101];
    Mature [0; 0]].
 
 Theorem nonvacuous :
@@ -2328,3 +2474,79 @@ Proof.
   - intros e IN. rewrite SlB, Sl1 in IN.
     assert (Le : sl_period e < v_period v) by (rewrite Forall_forall in SL; exact (SL e IN)). lia.
 Qed.
+
+(* ====================================================================== *)
+(* 16. export + import is the identity on shares and stake                 *)
+(* ====================================================================== *)
+Lemma withdraw_all_stk : forall h ord v acc v' l,
+  withdraw_all h ord v acc = Ok (v', l) -> stk_same v v'.
+Proof.
+  intros h ord. induction ord as [|a r IH]; intros v acc v' l H; cbn [withdraw_all] in H.
+  - inversion H; subst. unfold stk_same; auto.
+  - destruct (kget a (v_dels v)); [|eapply IH; eauto].
+    apply bind_ok in H as ([v1 p1] & W & H). cbn [fst snd] in H.
+    apply wdr_frame in W as ((T1&S1&D1) & _). apply IH in H as (T2&S2&D2).
+    unfold stk_same. repeat split; congruence.
+Qed.
+
+Lemma export_zero_v_stk : forall h ord v v' pays,
+  VInv v -> export_zero_v h ord v = Ok (v', pays) -> stk_same v v'.
+Proof.
+  unfold export_zero_v; intros h ord v v' pays V H.
+  apply bind_ok in H as ([v1 l1] & W & H). cbn [fst snd] in H.
+  apply bind_ok in H as (v2 & RA & H). inversion H; subst v2 pays; clear H.
+  pose proof (withdraw_all_inv _ _ _ _ _ _ V W) as [F SD SU NN K T PO].
+  apply withdraw_all_stk in W as (T1&S1&D1).
+  pose proof (reset_v_start v1 K) as ST.
+  assert (R0 : RI (reset_v v1) (reset_v v1)).
+  { constructor.
+    - constructor.
+      + rewrite ST. exact I.
+      + intros p. rewrite ST. unfold reset_v, href. psimpl. cbn [kget cnt_start ksumf cnt_slash].
+        replace (1 - 1) with 0 by reflexivity. destruct (p =? 0); reflexivity.
+      + rewrite ST. constructor.
+      + unfold reset_v. psimpl. constructor.
+    - unfold stk_same. repeat split.
+    - intros a. rewrite ST. unfold khas. cbn. discriminate.
+    - unfold reset_v. psimpl. split; reflexivity. }
+  destruct (reinit_all_RI _ _ _ _ R0 RA) as ([_ (T'&S'&D') _ _] & _).
+  unfold reset_v in T', S', D'. psimpl in *. unfold stk_same. repeat split; congruence.
+Qed.
+
+Lemma export_vals_stk : forall h ord l l' pays i v',
+  Forall VInv l -> export_vals h ord l = Ok (l', pays) -> vnth i l' = Some v' ->
+  exists v, vnth i l = Some v /\ stk_same v v'.
+Proof.
+  intros h ord l. induction l as [|x r IH]; intros l' pays i v' F H N; cbn [export_vals] in H.
+  - inversion H; subst. destruct i; discriminate.
+  - inversion F; subst.
+    apply bind_ok in H as ([x' p1] & E & H). apply bind_ok in H as ([r' p2] & ER & H).
+    inversion H; subst; clear H. cbn [fst] in N. destruct i; cbn [vnth] in *.
+    + inversion N; subst. exists x. split; [reflexivity|eapply export_zero_v_stk; eauto].
+    + eapply IH; eauto.
+Qed.
+
+(* C11: an application export (for zero height or not) followed by an import keeps every validator's
+   tokens and shares and every delegation; the invariants (hence liveness, sum of shares, reference
+   counts) are preserved (exec_inv / run_inv cover the operation) *)
+Theorem export_import_identity_on_stake : forall s s' zero ord v vs',
+  SInv s -> exec s (ExportImport zero ord) = Ok s' -> get_val v s' = Some vs' ->
+  SInv s' /\ exists vs, get_val v s = Some vs /\
+    v_tokens vs' = v_tokens vs /\ v_shares vs' = v_shares vs /\ v_dels vs' = v_dels vs.
+Proof.
+  intros s s' zero ord v vs' I H G.
+  split; [eapply exec_inv; eauto|].
+  cbn [exec] in H. destruct zero.
+  - apply bind_ok in H as ([l' pays] & E & H). inversion H; subst; clear H. cbn [fst snd] in G.
+    unfold get_val in *. cbn [s_vals set_height set_allow set_reds set_ubds] in G.
+    rewrite (proj1 (pay_all_frame _ _)) in G. cbn [s_vals set_vals] in G.
+    destruct (v <? 0); [discriminate|].
+    destruct I as (IA & _).
+    destruct (export_vals_stk _ _ _ _ _ _ _ IA E G) as (vs & N & (T&S&D)). exists vs. auto.
+  - inversion H; subst. exists vs'. unfold get_val in *. cbn [s_vals set_allow] in G. auto.
+Qed.
+
+(* an operation performed in a call frame that reverts afterwards takes no effect; in particular an
+   approveShares made there grants no allowance *)
+Theorem reverted_no_effect : forall s o, step s (Reverted o) = (s, false).
+Proof. reflexivity. Qed.
